@@ -633,10 +633,11 @@ pub struct SweepOut {
 pub fn sweep_family(seed: u64, f: u64, out: &mut SweepOut) {
     let mut rng = Rng::new(derive(seed, "c12sweep", f));
     let names: &[&str] = if f % 3 == 2 { gen::NAMES_ADV } else { gen::NAMES_PLAIN };
+    let adv_names = f % 3 == 2;
     let p = match f % 11 {
-        3 => DocParams { max_nodes: 60 + rng.below(60), max_depth: 2 + rng.below(2), names, max_width: 14, long_arrays: true },
-        7 => DocParams { max_nodes: 40 + rng.below(40), max_depth: 8 + rng.below(6), names, max_width: 3, long_arrays: false },
-        _ => DocParams { max_nodes: 6 + rng.below(20), max_depth: 1 + rng.below(4), names, max_width: 5, long_arrays: true },
+        3 => DocParams { max_nodes: 60 + rng.below(60), max_depth: 2 + rng.below(2), names, max_width: 14, long_arrays: true, mixed_names: adv_names },
+        7 => DocParams { max_nodes: 40 + rng.below(40), max_depth: 8 + rng.below(6), names, max_width: 3, long_arrays: false, mixed_names: adv_names },
+        _ => DocParams { max_nodes: 6 + rng.below(20), max_depth: 1 + rng.below(4), names, max_width: 5, long_arrays: true, mixed_names: adv_names },
     };
     let mut doc = gen::gen_doc(&mut rng, &p);
     if f % 17 == 4 {
@@ -901,23 +902,24 @@ pub fn gen_corpus_with(seed: u64, n_fam: usize, q_per_fam: usize, adv: bool) -> 
     for f in 0..n_fam {
         let mut rng = Rng::new(derive(seed, "c12doc", f as u64));
         let names: &[&str] = if adv && f % 4 == 3 { gen::NAMES_ADV } else { gen::NAMES_PLAIN };
+        let adv_names = adv && f % 4 == 3;
         // size classes: most families are small; some are wide, some big, some deep (still parsable)
         let p = match f % 7 {
-            3 => DocParams { max_nodes: 60 + rng.below(60), max_depth: 2 + rng.below(2), names, max_width: 14, long_arrays: true },
-            5 => DocParams { max_nodes: 40 + rng.below(40), max_depth: 8 + rng.below(6), names, max_width: 3, long_arrays: false },
-            _ => DocParams { max_nodes: 8 + rng.below(23), max_depth: 1 + rng.below(4), names, max_width: 4, long_arrays: true },
+            3 => DocParams { max_nodes: 60 + rng.below(60), max_depth: 2 + rng.below(2), names, max_width: 14, long_arrays: true, mixed_names: adv_names },
+            5 => DocParams { max_nodes: 40 + rng.below(40), max_depth: 8 + rng.below(6), names, max_width: 3, long_arrays: false, mixed_names: adv_names },
+            _ => DocParams { max_nodes: 8 + rng.below(23), max_depth: 1 + rng.below(4), names, max_width: 4, long_arrays: true, mixed_names: adv_names },
         };
         let mut base = gen::gen_doc(&mut rng, &p);
         if adv && n_fam >= 8 && f == 1 {
             // the deep family: values nested deeper than 128 levels (hand-built; serde_json cannot parse
             // them), their small twin, and descendant queries whose results stay small
             let mut fam = vec![];
-            for t in ["#deep:140:8", "#deep:133:3", "{\"a\":{\"c\":1},\"b0\":{\"a\":{\"a\":{\"c\":2}}},\"c\":3}"] {
+            for t in ["#deep:140:8", "#deep:133:3", "{\"a\":{\"c\":1},\"b0\":{\"a\":{\"a\":{\"c\":2}}},\"c\":3}", "#records:100000"] {
                 contents.push(t.to_string());
                 fam.push(contents.len() - 1);
             }
             let mut fq = vec![];
-            for q in ["$..c", "$..[?@.c]", "$.b0..c", "$..c[?@>0]", "$.c", "$..b1..c", "$[?@..c]", "$..[?@.c>=0].c", "$.b0.a.a..c"] {
+            for q in ["$..c", "$..[?@.c]", "$.b0..c", "$..c[?@>0]", "$.c", "$..b1..c", "$[?@..c]", "$..[?@.c>=0].c", "$.b0.a.a..c", "$..zz", "$.r[5]..x", "$..c"] {
                 queries.push(q.to_string());
                 fq.push(queries.len() - 1);
                 q_other_family.push(f);
@@ -1154,9 +1156,9 @@ pub fn gen_plan_opt(c: &Corpus, run_seed: u64, allow_stress: bool) -> (Plan, Pla
     };
     for s in 0..n_slots {
         // a later slot often repeats an earlier family: equal or nearly equal documents live together
-        let mut f = if s > 0 && rng.chance(1, 2) { *rng.pick(&fams_used) } else if stress { rng.below(c.families.len().min(3)) } else { rng.below(c.families.len()) };
+        let mut f = if s > 0 && rng.chance(1, 2) { *rng.pick(&fams_used) } else if stress { *rng.pick(&[0usize, 4 % c.families.len(), 5 % c.families.len()]) } else { rng.below(c.families.len()) };
         // the deep family is expensive: take it one time in three of what a uniform draw would
-        if (c.contents[c.families[f][0]].starts_with("#deep") || c.contents[c.families[f][0]].len() > 1500) && !fams_used.contains(&f) && rng.chance(2, 3) {
+        if (c.contents[c.families[f][0]].starts_with("#") || c.contents[c.families[f][0]].len() > 1500) && !fams_used.contains(&f) && rng.chance(2, 3) {
             f = rng.below(c.families.len());
         }
         if !fams_used.contains(&f) {
@@ -1237,7 +1239,14 @@ pub fn gen_plan_opt(c: &Corpus, run_seed: u64, allow_stress: bool) -> (Plan, Pla
         let fam_of_slot = c.families.iter().position(|fam| fam.contains(&content_map[slots[d][0]])).unwrap_or(0);
         c.fam_queries[fam_of_slot].contains(&qi) || c.q_other_family[qi] == fam_of_slot
     };
-    let n_clients = match if stress { 1 + rng.below(2) } else { rng.weighted(&[2, 3, 3, 2]) } {
+    // 2 % of the runs are crowds: 9-12 caller threads with a few operations each (limits on how many
+    // callers may be inside some part of the library at once)
+    let crowd = !stress && rng.chance(2, 100);
+    let n_clients = match if crowd { 4 + rng.below(4) } else if stress { 1 + rng.below(2) } else { rng.weighted(&[2, 3, 3, 2]) } {
+        4 => 9,
+        5 => 10,
+        6 => 11,
+        7 => 12,
         0 => 1,
         1 => 2,
         2 => 3,
@@ -1250,7 +1259,7 @@ pub fn gen_plan_opt(c: &Corpus, run_seed: u64, allow_stress: bool) -> (Plan, Pla
     let w_ref = rng.below(2) as u32;
     let mut clients = vec![];
     for _ in 0..n_clients {
-        let n_ops = if stress { 400 + rng.below(500) } else { 3 + rng.below(38) };
+        let n_ops = if stress { 400 + rng.below(500) } else if crowd { 2 + rng.below(5) } else { 3 + rng.below(38) };
         let mut ops = vec![];
         let mut guard = 0;
         while ops.len() < n_ops && guard < 8000 {
@@ -1289,6 +1298,8 @@ pub fn gen_plan_opt(c: &Corpus, run_seed: u64, allow_stress: bool) -> (Plan, Pla
     }
     let policy = if n_clients == 1 {
         Policy::RunToCompletion
+    } else if crowd && rng.chance(2, 3) {
+        Policy::Barrier { site: *rng.pick(&[8u32, 9, 8, 10, 6, 5, 12, 2]) }
     } else {
         match rng.weighted(&[3, 10, 5]) {
             0 => Policy::RunToCompletion,
@@ -1369,8 +1380,20 @@ pub fn gen_plan_opt(c: &Corpus, run_seed: u64, allow_stress: bool) -> (Plan, Pla
             site_mask |= 1u64 << s;
         }
     }
+    // a multi-megabyte document has hundreds of thousands of nodes: no per-node schedule points at all
+    if content_map.iter().any(|ci| c.contents[*ci].starts_with("#records")) {
+        for s in [3u32, 4, 5, 6, 12] {
+            site_mask &= !(1u64 << s);
+        }
+        for a in 0..simdoc::N_ACC as u32 {
+            site_mask &= !(1u64 << (simdoc::SEAM_BASE + a));
+        }
+    }
+    if let Policy::Barrier { site } = &policy {
+        site_mask |= 1u64 << site;
+    }
     // a deep document has a thousand nodes on one path: mostly keep the per-node schedule points off
-    let has_deep = content_map.iter().any(|ci| c.contents[*ci].starts_with("#deep") || c.contents[*ci].len() > 1500);
+    let has_deep = content_map.iter().any(|ci| c.contents[*ci].starts_with("#") || c.contents[*ci].len() > 1500);
     if has_deep && rng.chance(9, 10) {
         for s in [3u32, 4, 5, 6, 12] {
             site_mask &= !(1u64 << s);
@@ -1996,6 +2019,7 @@ pub fn drive(tier_name: &str, seed: u64, workers: usize) -> i32 {
                 Policy::Random { .. } => "random",
                 Policy::Pct { .. } => "pct",
                 Policy::RunToCompletion => "run_to_completion",
+                Policy::Barrier { .. } => "barrier_at_site",
             }).or_insert(0) += 1;
             *reprs.entry(if plan.repr == 0 { "Value".to_string() } else { format!("SimDoc/p{}", plan.repr - 1) }).or_insert(0) += 1;
             *clients_hist.entry(plan.clients.len()).or_insert(0) += 1;
@@ -2340,4 +2364,14 @@ pub fn replay(body: &Value) -> i32 {
             2
         }
     }
+}
+
+/// `sim c12-plan <run index> [tier]`: prints the plan of one run of the batch (debugging aid).
+pub fn plan_main(index: u64, tier_name: &str, seed: u64) -> i32 {
+    let t = tier(tier_name);
+    let epoch = index / 40_000;
+    let corpus = gen_corpus(derive(seed, "corpus", epoch), t.families, t.q_per_fam);
+    let (p, _) = gen_plan(&corpus, derive(seed, "run", index));
+    println!("{}", serde_json::to_string(&p).unwrap());
+    0
 }
